@@ -1,5 +1,7 @@
 import Thanos.Lemmas.DownsampleCounter
 import Thanos.Lemmas.DownsampleCounterL1
+import Thanos.Lemmas.DownsampleCounterL2
+import Thanos.Props.C38
 import Thanos.Props.C36
 import Thanos.Generated.Facts
 /-
@@ -47,16 +49,44 @@ theorem map_of_map_some {α β γ : Type} (f : α → Option β) (proj : β → 
     simp only [List.map_cons]
     rw [hp b (by simp) c h.1.symm, map_of_map_some f proj G bs cs h.2 (fun b' hb' => hp b' (List.mem_cons_of_mem _ hb'))]
 
-/-- **C37, level 1.**  Reading the counter aggregate of the chunks DownsampleRaw produces (the
-    querier's `NewApplyCounterResetsIterator` over the counter sub-chunks) returns, per batch, the
-    batch's first raw timestamp and then its later window timestamps, each with the raw counter
-    adjusted for all resets up to the last raw sample at or before that timestamp (`adjAt` over the
-    non-NaN raw series) — resets inside windows, at window ends and between chunks included. -/
-theorem C37_level1 (r : Int) (hr : 0 < r) (data : List Raw) (nc : Nat) (hnc : 0 < nc) (ok : RawOK data)
+/-- every raw sample of a batch is covered by one of the batch's emission timestamps, inside the
+    sample's own window -/
+theorem level1_cover (r : Int) (hr : 0 < r) (b : List Pt) (t0 v0 lt lv : Int) (hh : b.head? = some (t0, v0))
+    (hl : b.getLast? = some (lt, lv)) (h0 : ∀ p ∈ b, 0 ≤ p.1) (hs : Sorted b) :
+    ∀ u ∈ b, ∃ e ∈ segTs b (batchTs r b lt), u.1 ≤ e ∧ e ≤ currentWindow u.1 r := by
+  intro u hu
+  have hle : u.1 ≤ lt := by
+    obtain ⟨ys, hys⟩ := List.getLast?_eq_some_iff.mp hl
+    rw [hys] at hu hs
+    rcases List.mem_append.mp hu with h | h
+    · exact Int.le_of_lt ((List.pairwise_append.mp hs).2.2 u h (lt, lv) (by simp))
+    · simp at h; rw [h]; exact Int.le_refl _
+  have ht0 : t0 ≤ u.1 := by
+    cases b with
+    | nil => simp at hh
+    | cons x xs =>
+      simp only [List.head?_cons, Option.some.injEq] at hh
+      rcases List.mem_cons.mp hu with h | h
+      · rw [h, hh]; exact Int.le_refl _
+      · have := (List.pairwise_cons.mp hs).1 u h; rw [hh] at this; exact Int.le_of_lt this
+  have : u ∈ (runs r b).flatMap (·.2) := by rw [runs_flatten]; exact hu
+  obtain ⟨g, hg, hug⟩ := List.mem_flatMap.mp this
+  have hw := runs_window r b g hg u hug
+  have hcw := currentWindow_ge (h0 u hu) hr
+  have hmem : min g.1 lt ∈ batchTs r b lt := List.mem_map.mpr ⟨g, hg, rfl⟩
+  have hge : u.1 ≤ min g.1 lt := by simp only [Int.min_def]; split <;> omega
+  refine ⟨min g.1 lt, ?_, hge, by rw [hw]; simp only [Int.min_def]; split <;> omega⟩
+  simp only [segTs, firstT, hh, List.mem_cons]
+  by_cases he : min g.1 lt = t0
+  · exact Or.inl he
+  · exact Or.inr (List.mem_filter.mpr ⟨hmem, by simp; omega⟩)
+
+/-- the level-1 chunks as counter chunks of the batches -/
+theorem C37_level1_segs (r : Int) (hr : 0 < r) (data : List Raw) (nc : Nat) (hnc : 0 < nc) (ok : RawOK data)
     (hv : ∀ p ∈ dropNaN data, 0 ≤ p.2) :
     ∃ chunks, downsampleRaw data r nc = some chunks ∧
-      (applyResets (chunks.map (·.counter))).1 =
-        (segsOf r nc data).flatMap (fun sg => (segTs sg.1 sg.2).map fun t => (t, adjAt (dropNaN data) t)) := by
+      chunks.map (·.counter) = (segsOf r nc data).map (fun sg => ctrChunk sg.1 sg.2) ∧
+      SegsOK r (segsOf r nc data) ∧ (segsOf r nc data).flatMap (·.1) = dropNaN data := by
   obtain ⟨chunks, hc, hflat, hne, _, hmap⟩ := downsampleRaw_batches r hr data nc hnc ok.sorted ok.nonneg
   have hbf := batch_facts (r := r) (nc := nc) ok hflat hne
   have hshape := chunk_shape hr (nc := nc) ok hflat hne
@@ -94,24 +124,36 @@ theorem C37_level1 (r : Int) (hr : 0 < r) (data : List Raw) (nc : Nat) (hnc : 0 
     rw [← hflat]
     simp only [segsOf, List.flatMap_def, List.map_map, Function.comp_def, List.map_id']
     rfl
+  refine ⟨chunks, hc, hctr, ⟨hseg, hflat' ▸ sorted_dropNaN ok.sorted, ?_, ?_, ?_⟩, hflat'⟩
+  · rw [hflat']; exact nonneg_dropNaN ok.nonneg
+  · rw [hflat']; exact hv
+  · intro sg hsg
+    simp only [segsOf, List.mem_map] at hsg
+    obtain ⟨b, hb, rfl⟩ := hsg
+    obtain ⟨hs, h0, _, _, t0, v0, lt, lv, hh, hl, hlt⟩ := hbf b hb
+    simp only
+    rw [hlt]
+    exact level1_cover r hr b t0 v0 lt lv hh hl h0 hs
+
+/-- **C37, level 1.**  Reading the counter aggregate of the chunks DownsampleRaw produces (the
+    querier's `NewApplyCounterResetsIterator` over the counter sub-chunks) returns, per batch, the
+    batch's first raw timestamp and then its later window timestamps, each with the raw counter
+    adjusted for all resets up to the last raw sample at or before that timestamp (`adjAt` over the
+    non-NaN raw series) — resets inside windows, at window ends and between chunks included. -/
+theorem C37_level1 (r : Int) (hr : 0 < r) (data : List Raw) (nc : Nat) (hnc : 0 < nc) (ok : RawOK data)
+    (hv : ∀ p ∈ dropNaN data, 0 ≤ p.2) :
+    ∃ chunks, downsampleRaw data r nc = some chunks ∧
+      (applyResets (chunks.map (·.counter))).1 =
+        (segsOf r nc data).flatMap (fun sg => (segTs sg.1 sg.2).map fun t => (t, adjAt (dropNaN data) t)) := by
+  obtain ⟨chunks, hc, hctr, hok, hflat'⟩ := C37_level1_segs r hr data nc hnc ok hv
   have hsorted : Sorted ([] ++ (segsOf r nc data).flatMap (·.1)) := by
-    rw [List.nil_append, hflat']; exact sorted_dropNaN ok.sorted
-  obtain ⟨hread, _⟩ := crChunks_segs (segsOf r nc data) [] {} [] hseg hsorted (by simp [StateAfter])
+    rw [List.nil_append]; exact hok.sorted
+  obtain ⟨hread, _⟩ := crChunks_segs (segsOf r nc data) [] {} [] hok.segok hsorted (by simp [StateAfter])
   refine ⟨chunks, hc, ?_⟩
   have happly : (applyResets (chunks.map (·.counter))).1 = (crChunks (chunks.map (·.counter)) {} []).1 := by
     simp only [applyResets]
-  rw [happly, hctr, hread, readSegs_global _ [] hsorted hseg]
+  rw [happly, hctr, hread, readSegs_global _ [] hsorted hok.segok]
   simp only [List.nil_append, hflat']
-
-/-- Regenerated obligations: reset detection in the aggregator and in the reader, and the
-    `Seek(lastT + 1)` at a chunk switch. -/
-theorem C37_source_facts :
-    Thanos.Facts.dsAggregatorAddConds = ["a.total > 0", "s.v < a.last", "s.v < a.min", "s.v > a.max"] ∧
-    Thanos.Facts.dsCounterNextConds = ["it.i >= len(it.chks)", "it.lastValType == chunkenc.ValNone",
-      "it.lastValType != chunkenc.ValFloat", "math.IsNaN(v)", "it.total == 0", "t > it.lastT", "v >= it.lastV",
-      "t == it.lastT"] ∧
-    Thanos.Facts.dsCounterNextSeek = ["it.Seek(it.lastT + 1)"] := by
-  decide
 
 /-- every sample the reader returns for level-1 data carries the reset-adjusted raw counter at its timestamp -/
 theorem C37_level1_pointwise (r : Int) (hr : 0 < r) (data : List Raw) (nc : Nat) (hnc : 0 < nc) (ok : RawOK data)
@@ -126,6 +168,55 @@ theorem C37_level1_pointwise (r : Int) (hr : 0 < r) (data : List Raw) (nc : Nat)
   obtain ⟨t, _, rfl⟩ := List.mem_map.mp hp
   rfl
 
+/-! ### level 2: raw → DownsampleRaw → downsampleAggrLoop → read back -/
+
+/-- **C37, level 2.**  Raw counter series → DownsampleRaw at resolution `r1` → downsampleAggrLoop
+    at a multiple `k * r1` (5m → 1h is `k = 12`), for all chunk counts at both levels: the second
+    level is produced, and every sample the reader returns for its counter aggregate carries the
+    raw counter adjusted for all resets up to the last raw sample at or before its timestamp; the
+    read-back consists, per level-2 chunk, of the chunk's first raw timestamp followed by its
+    later window timestamps (`segs2`), whose raw samples partition the series. -/
+theorem C37_level2 (r1 k : Int) (hr1 : 0 < r1) (hk : 0 < k) (data : List Raw) (nc1 nc2 : Nat)
+    (hn1 : 0 < nc1) (hn2 : 0 < nc2) (ok : RawOK data) (hv : ∀ p ∈ dropNaN data, 0 ≤ p.2) :
+    ∃ (l1 l2 : List Chunk) (segs2 : List (List Pt × List Int)), downsampleRaw data r1 nc1 = some l1 ∧ downsampleAggrLoop true l1 (k * r1) nc2 = .ok l2 ∧
+      segs2.flatMap (·.1) = dropNaN data ∧
+      (applyResets (l2.map (·.counter))).1 =
+        segs2.flatMap (fun sg => (segTs sg.1 sg.2).map fun t => (t, adjAt (dropNaN data) t)) ∧
+      ∀ p ∈ (applyResets (l2.map (·.counter))).1, p.2 = adjAt (dropNaN data) p.1 := by
+  obtain ⟨l1, e1, hctr, hok, hflat⟩ := C37_level1_segs r1 hr1 data nc1 hn1 ok hv
+  obtain ⟨l1', e1', hwf⟩ := C36_wellformed r1 hr1 data nc1 hn1 ok
+  rw [e1] at e1'; cases e1'
+  obtain ⟨l2, e2, _⟩ := C38_conserves (k * r1) (Int.mul_pos hk hr1) l1 nc2 hn2 hwf
+  have hnc : nc2 ≠ 0 := by omega
+  have e2' : aggrLoop (k * r1) (aggrBatchSize true l1.length nc2) l1.length l1 = .ok l2 := by
+    simpa [downsampleAggrLoop, hnc] using e2
+  obtain ⟨segs2, hc2, hseg2, hflat2⟩ := aggrLoop_counter r1 k hr1 hk _ (by simp [aggrBatchSize]; omega) _ l1 _ l2 hctr hok e2'
+  have hsorted : Sorted ([] ++ segs2.flatMap (·.1)) := by
+    rw [List.nil_append, hflat2]; exact hok.sorted
+  obtain ⟨hread, _⟩ := crChunks_segs segs2 [] {} [] hseg2 hsorted (by simp [StateAfter])
+  have hlist : (applyResets (l2.map (·.counter))).1 =
+      segs2.flatMap (fun sg => (segTs sg.1 sg.2).map fun t => (t, adjAt (dropNaN data) t)) := by
+    have happly : (applyResets (l2.map (·.counter))).1 = (crChunks (l2.map (·.counter)) {} []).1 := by
+      simp only [applyResets]
+    rw [happly, hc2, hread, readSegs_global _ [] hsorted hseg2]
+    simp only [List.nil_append, hflat2, hflat]
+  refine ⟨l1, l2, segs2, e1, e2, by rw [hflat2, hflat], hlist, ?_⟩
+  intro p hp
+  rw [hlist] at hp
+  obtain ⟨sg, _, hp⟩ := List.mem_flatMap.mp hp
+  obtain ⟨t, _, rfl⟩ := List.mem_map.mp hp
+  rfl
+
+/-- Regenerated obligations: reset detection in the aggregator and in the reader, and the
+    `Seek(lastT + 1)` at a chunk switch. -/
+theorem C37_source_facts :
+    Thanos.Facts.dsAggregatorAddConds = ["a.total > 0", "s.v < a.last", "s.v < a.min", "s.v > a.max"] ∧
+    Thanos.Facts.dsCounterNextConds = ["it.i >= len(it.chks)", "it.lastValType == chunkenc.ValNone",
+      "it.lastValType != chunkenc.ValFloat", "math.IsNaN(v)", "it.total == 0", "t > it.lastT", "v >= it.lastV",
+      "t == it.lastT"] ∧
+    Thanos.Facts.dsCounterNextSeek = ["it.Seek(it.lastT + 1)"] := by
+  decide
+
 -- non-vacuity: a counter with a reset inside a window (t = 3), one exactly between the two chunks
 -- (t = 60) and a NaN; `C37_level1` applies (RawOK, values ≥ 0) and its right-hand side is
 example : RawOK [(1, some 5), (2, some 7), (3, some 2), (4, none), (60, some 1), (61, some 4)] :=
@@ -135,6 +226,13 @@ example : (segsOf 50 2 [(1, some 5), (2, some 7), (3, some 2), (4, none), (60, s
     [(1, 5), (3, 9), (60, 10), (61, 13)] := by decide
 example : ((downsampleRaw [(1, some 5), (2, some 7), (3, some 2), (4, none), (60, some 1), (61, some 4)] 50 2).map
     fun cs => (applyResets (cs.map (·.counter))).1) = some [(1, 5), (3, 9), (60, 10), (61, 13)] := by decide
+
+-- level 2 on the same series (50 → 100, one output chunk): the reset between the two level-1 chunks survives
+example : (match downsampleRaw [(1, some 5), (2, some 7), (3, some 2), (4, none), (60, some 1), (61, some 4)] 50 2 with
+    | some l1 => (match downsampleAggrLoop true l1 100 1 with
+      | .ok l2 => (applyResets (l2.map (·.counter))).1
+      | _ => [])
+    | none => []) = [(1, 5), (61, 13)] := by decide
 
 -- non-vacuity: TestDownsampleCounterBoundaryReset
 example : (applyResets [[(10, 1), (30, 5), (30, 5)], [(50, 1), (70, 10), (70, 10)], [(120, 1), (140, 20), (140, 20)]]).1 =
